@@ -14,6 +14,7 @@ import (
 	"errors"
 	"fmt"
 	"io"
+	"os"
 	"runtime"
 	"sort"
 	"strconv"
@@ -59,6 +60,10 @@ func guarded(inputLen int, f func() string) string {
 	case out := <-done:
 		return out
 	case <-time.After(5 * time.Second):
+		// the call is still running (a spin): it cannot be stopped, so the process ends here; the driver
+		// records the pending operation as CRASH with this message
+		fmt.Fprintln(os.Stderr, "fatal error: watchdog timeout (call did not return within 5s)")
+		os.Exit(3)
 		return "TIMEOUT"
 	}
 }
